@@ -999,6 +999,9 @@ func _expandFont(_ string, _ pr.Shortand, tokens []Token) ([]namedTokens, error)
 		}
 	}
 	if !hasBroken {
+		if len(tokens) == 0 { // four optional values: font-size is missing
+			return nil, ErrInvalidValue
+		}
 		token, tokens = tokens[len(tokens)-1], tokens[:len(tokens)-1]
 	}
 
